@@ -42,7 +42,7 @@ use ark_ff::fields::fp6_3over2::{Fp6Config as Fp6Config3o2, Fp6ConfigWrapper as 
 
 /// sources scanned for the registry staleness check and the derive attributes
 fn repo() -> String {
-    std::env::var("C16_REPO").unwrap_or_else(|_| "/repo".to_string())
+    std::env::var("C16_REPO").or_else(|_| std::env::var("VERIF_REPO_OVERRIDE")).unwrap_or_else(|_| "/repo".to_string())
 }
 
 // ---------------------------------------------------------------------
